@@ -130,7 +130,8 @@ def lcg_records(n, seed, minlen, maxlen, with_n):
 def write_inputs(d, name, recs):
     """writes name.fa, name.fq, name.fa.gz, name.fq.gz; returns dict of paths"""
     fa = b"".join(b">r%d desc %d\n%s\n" % (i, i, r) for i, r in enumerate(recs))
-    fq = b"".join(b"@r%d desc\n%s\n+\n%s\n" % (i, r, b"I" * len(r)) for i, r in enumerate(recs))
+    # quality lines may legally start with '@' or '+'
+    fq = b"".join(b"@r%d desc\n%s\n+\n%s\n" % (i, r, (b"@+I>"[i % 4:i % 4 + 1] + b"I" * len(r))[:len(r)]) for i, r in enumerate(recs))
     paths = {}
     for suffix, data in ((".fa", fa), (".fq", fq)):
         p = os.path.join(d, name + suffix)
@@ -173,7 +174,7 @@ def c15_oligo(rep, d, inputs, tier):
     cases = []
     libres = {}
     for name, (paths, recs) in inputs.items():
-        for k in (3, 5, 7) if tier == "thorough" else (3, 5):
+        for k in (3, 5, 7) if (tier == "thorough" or name == "in5") else (3, 5):
             for preset in ("csv", "tsv", "spc"):
                 for counts in (0, 1):
                     for header in (0, 1):
@@ -820,6 +821,7 @@ def canon_dir(d):
 def c17_runs(inputs):
     """the alphabet: name -> (function(location dir) executing the real run, documented result files)"""
     small, big, clean_s, clean_b = inputs["small"], inputs["big"], inputs["clean_s"], inputs["clean_b"]
+    tiny, none = inputs["tiny"], inputs["none"]
     R = {}
 
     def cli_run(args):
@@ -843,6 +845,8 @@ def c17_runs(inputs):
         "oligo big k3 -c": (cli_run(["comp", "oligo", "-i", big, "-o", "@/vec.txt", "-k", "3", "-c", "-t", "3"]), ["vec.txt"]),
         "oligo small k3 -c csv": (cli_run(["comp", "oligo", "-i", small, "-o", "@/vec.txt", "-k", "3", "-c", "-p", "csv"]), ["vec.txt"]),
         "oligo big k4 lib mmap": (lib_run("oligo", **{"in": big, "out": "@/vec.txt", "k": 4, "writer": "mmap", "threads": 3}), ["vec.txt"]),
+        "oligo no records": (cli_run(["comp", "oligo", "-i", none, "-o", "@/vec.txt", "-k", "3"]), ["vec.txt"]),
+        "oligo no records -c": (cli_run(["comp", "oligo", "-i", none, "-o", "@/vec.txt", "-k", "3", "-c"]), ["vec.txt"]),
     }
     groups["cgr"] = {
         "cgr small": (cli_run(["comp", "cgr", "-i", clean_s, "-o", "@/vec.txt", "-v", "16", "-t", "2"]), ["vec.txt"]),
@@ -850,12 +854,19 @@ def c17_runs(inputs):
         "kcgr small k3": (cli_run(["comp", "cgr", "-i", small, "-o", "@/vec.txt", "-k", "3", "-v", "16"]), ["vec.txt"]),
         "kcgr big k4 -c": (cli_run(["comp", "cgr", "-i", big, "-o", "@/vec.txt", "-k", "4", "-c", "-t", "2"]), ["vec.txt"]),
         "oligo small k3 (same path)": (cli_run(["comp", "oligo", "-i", small, "-o", "@/vec.txt", "-k", "3"]), ["vec.txt"]),
+        "cgr no records": (cli_run(["comp", "cgr", "-i", none, "-o", "@/vec.txt"]), ["vec.txt"]),
+        "kcgr no records": (cli_run(["comp", "cgr", "-i", none, "-o", "@/vec.txt", "-k", "3"]), ["vec.txt"]),
     }
     groups["min"] = {
         "s2m small w0": (cli_run(["min", "-i", small, "-o", "@/s2m.txt", "-m", "7", "-t", "2"]), ["s2m.txt"]),
         "s2m big w12": (cli_run(["min", "-i", big, "-o", "@/s2m.txt", "-m", "7", "-w", "12", "-t", "4"]), ["s2m.txt"]),
         "m2s small w0": (cli_run(["min", "-i", small, "-o", "@/m2s.txt", "-m", "7", "-p", "m2s", "-t", "2"]), ["m2s.txt"]),
         "m2s big w12": (cli_run(["min", "-i", big, "-o", "@/m2s.txt", "-m", "8", "-w", "12", "-p", "m2s", "-t", "3"]), ["m2s.txt"]),
+        # runs whose listing is empty: records shorter than m, and no records at all
+        "m2s tiny (no minimiser)": (cli_run(["min", "-i", tiny, "-o", "@/m2s.txt", "-m", "12", "-p", "m2s", "-t", "2"]), ["m2s.txt"]),
+        "s2m tiny (ids only)": (cli_run(["min", "-i", tiny, "-o", "@/s2m.txt", "-m", "12", "-t", "2"]), ["s2m.txt"]),
+        "m2s no records": (cli_run(["min", "-i", none, "-o", "@/m2s.txt", "-m", "7", "-p", "m2s"]), ["m2s.txt"]),
+        "s2m no records": (cli_run(["min", "-i", none, "-o", "@/s2m.txt", "-m", "7"]), ["s2m.txt"]),
     }
     groups["ctr-cov"] = {
         "ctr small k10 (cli)": (cli_run(["ctr", "-i", small, "-o", "@", "-k", "10", "-t", "2"]), ["kmers.counts"]),
@@ -866,6 +877,8 @@ def c17_runs(inputs):
         "cov small k7 (cli)": (cli_run(["cov", "-i", small, "-o", "@", "-k", "7", "-s", "5", "-c", "5", "-t", "2"]), ["kmers.counts", "kmers.vectors"]),
         "cov big k7 counts (cli)": (cli_run(["cov", "-i", big, "-o", "@", "-k", "7", "-s", "5", "-c", "6", "--counts", "-t", "3"]), ["kmers.counts", "kmers.vectors"]),
         "cov small alt=big k9": (cli_run(["cov", "-i", small, "-a", big, "-o", "@", "-k", "9", "-s", "5", "-c", "5"]), ["kmers.counts", "kmers.vectors"]),
+        "ctr tiny k12 (no k-mer)": (cli_run(["ctr", "-i", tiny, "-o", "@", "-k", "12", "-t", "2"]), ["kmers.counts"]),
+        "cov no records k7": (cli_run(["cov", "-i", none, "-o", "@", "-k", "7"]), ["kmers.counts", "kmers.vectors"]),
     }
     return groups
 
@@ -876,7 +889,8 @@ def c17(tier):
     recs_small = lcg_records(3, 5, 30, 45, True)
     recs_big = lcg_records(11, 9, 35, 70, True)
     inputs = {}
-    for name, recs in (("small", recs_small), ("big", recs_big), ("clean_s", lcg_records(2, 3, 5, 12, False)), ("clean_b", lcg_records(9, 4, 10, 40, False))):
+    for name, recs in (("small", recs_small), ("big", recs_big), ("clean_s", lcg_records(2, 3, 5, 12, False)), ("clean_b", lcg_records(9, 4, 10, 40, False)),
+                       ("tiny", [b"ACGTACGTA", b"ACGTACGTACG", b"NNNNN"]), ("none", [])):
         inputs[name] = write_inputs(d, name, recs)["fa"]
     groups = c17_runs(inputs)
     max_depth = 4 if tier == "thorough" else 3
